@@ -353,6 +353,26 @@ func (m *machine) expectRunReturns(t *rapid.T, why string) {
 	}
 	m.ended = true
 	m.log("Run returned nil (%s)", why)
+	// the router is closed and Run has returned: every started handler has ended, so its Stopped() says so
+	for _, h := range m.hs {
+		if !h.shouldBeStarted {
+			continue
+		}
+		select {
+		case <-h.handle.Started():
+		default:
+			continue
+		}
+		st := h.handle.Stopped()
+		if st == nil {
+			t.Fatalf("violation: Stopped() of %s is nil although Started() is closed (ops %v)", h.name, m.ops)
+		}
+		select {
+		case <-st:
+		case <-time.After(lib.Live):
+			t.Fatalf("violation: router closed and Run returned (%s), but Stopped() of handler %s was never closed (ops %v)", why, h.name, m.ops)
+		}
+	}
 	if err := m.router.Run(context.Background()); err == nil {
 		t.Fatalf("violation: a second Run returned nil (ops %v)", m.ops)
 	}
